@@ -264,6 +264,52 @@ pub fn run(ctx: &Ctx, rep: &mut Report) {
                     o.rep.count("scalar_boundary_cases", 1);
                 }
             }
+            // limb- and byte-structured neighbours of the group order in one (rotating) scalar slot: every combination
+            // of {0, l's limb, l's limb - 1, l's limb + 1, all ones, random} over the four 64-bit limbs, and every
+            // single byte of l and of l - 1 replaced by 0, 0xFF, byte + 1, byte - 1
+            {
+                let pos = positions[(d + k) % positions.len()];
+                let limb_of = |i: usize| u64::from_le_bytes(L_LE[8 * i..8 * i + 8].try_into().unwrap());
+                let rnd: [u64; 4] = [frng.next_u64(), frng.next_u64(), frng.next_u64(), frng.next_u64() >> 4];
+                for code in 0..6usize.pow(4) {
+                    let mut v = [0u8; 32];
+                    let mut c = code;
+                    for i in 0..4 {
+                        let l = limb_of(i);
+                        let x = match c % 6 {
+                            0 => 0,
+                            1 => l,
+                            2 => l.wrapping_sub(1),
+                            3 => l.wrapping_add(1),
+                            4 => u64::MAX,
+                            _ => rnd[i],
+                        };
+                        c /= 6;
+                        v[8 * i..8 * i + 8].copy_from_slice(&x.to_le_bytes());
+                    }
+                    let mut b = base.clone();
+                    b[1 + 32 * pos..33 + 32 * pos].copy_from_slice(&v);
+                    o.check(&format!("scalar slot {pos} = limb pattern {code} (degree {d}, rounds {k})"), &b, false);
+                    o.rep.count("scalar_limb_grid_cases", 1);
+                }
+                for from in [L_LE, sub1_le(&L_LE)] {
+                    for i in 0..32 {
+                        for how in 0..4 {
+                            let mut v = from;
+                            v[i] = match how {
+                                0 => 0,
+                                1 => 0xFF,
+                                2 => v[i].wrapping_add(1),
+                                _ => v[i].wrapping_sub(1),
+                            };
+                            let mut b = base.clone();
+                            b[1 + 32 * pos..33 + 32 * pos].copy_from_slice(&v);
+                            o.check(&format!("scalar slot {pos} = group order with byte {i} altered ({how}) (degree {d}, rounds {k})"), &b, false);
+                            o.rep.count("scalar_byte_grid_cases", 1);
+                        }
+                    }
+                }
+            }
             // the same values in *point* slots must not matter
             for pos in [d, d + 1, d + 2, d + 5] {
                 let mut b = base.clone();
